@@ -274,6 +274,66 @@ def rules_section(ctx):
                 ctx.spec_failure(dict(case, pair=[a, b]), "pair (%s, %s) = %s of the default master is not applied under script %r (got %r)" % (a, b, v, t, got[:3]))
 
 
+def master_only_kerning_section(ctx):
+    """variable fonts in which a declared script's ONLY kerning is class kerning that the default master does not have (absent
+    or 0 there, real values in another master): that script still has glyphs the generated kerning acts on, so it must expose
+    kern next to mark / mkmk, and at the other master's location the pair has that master's value"""
+    import ufo2ft
+    from harness import dsgen
+    from fontTools.ttLib import TTFont
+    from fontTools.varLib import instancer
+    rng = ctx.subrng("master-only-kerning")
+    for i in range(ctx.budget(8, 24)):
+        lib = ["ufoLib2", "defcon"][i % 2]
+        fn = ["compileVariableTTF", "compileVariableCFF2"][(i // 2) % 2]
+        in_default = ["absent", "zero"][(i // 4) % 2]
+        LET = [("A", 0x41), ("V", 0x56), ("be-cy", 0x431), ("ve-cy", 0x432), ("ghe-cy", 0x433)]
+
+        def master(k):
+            gl = [{"name": n, "unicodes": [u], "width": Fr(500 + 20 * k), "components": [], "anchors": [("top", Fr(250), Fr(700 + 5 * k))],
+                   "contours": [[(Fr(100), Fr(0), "line"), (Fr(150 + 30 * k), Fr(0), "line"), (Fr(150 + 30 * k), Fr(400), "line"), (Fr(100), Fr(400), "line")]]}
+                  for n, u in LET]
+            gl.append({"name": "acutecomb", "unicodes": [0x301], "width": Fr(0), "components": [], "anchors": [("_top", Fr(0), Fr(500)), ("top", Fr(0), Fr(650))],
+                       "contours": [[(Fr(-30), Fr(520), "line"), (Fr(30 + k), Fr(520), "line"), (Fr(0), Fr(600), "line")]]})
+            kern = {("A", "V"): Fr(-40 - 5 * k)}
+            if k > 0:
+                kern[("public.kern1.be", "public.kern2.ve")] = Fr(-25 * k)
+            elif in_default == "zero":
+                kern[("public.kern1.be", "public.kern2.ve")] = Fr(0)
+            return {"glyphs": gl, "glyphOrder": [g["name"] for g in gl], "kerning": kern,
+                    "groups": {"public.kern1.be": ["be-cy"], "public.kern2.ve": ["ve-cy", "ghe-cy"]}, "lib": {},
+                    "features": "languagesystem DFLT dflt;\nlanguagesystem latn dflt;\nlanguagesystem cyrl dflt;\n",
+                    "info": {"familyName": "Fam", "styleName": "M%d" % k, "unitsPerEm": 1000, "ascender": 800, "descender": -200}}
+        masters = [master(0), master(2)]
+        ds, fonts = dsgen.make_designspace(rng, masters, lib, instances=False)
+        case = {"function": fn, "lib": lib, "cyrillic_class_pair_in_the_default_master": in_default, "masters": [jsonable({k: (v if k != "kerning" else {"%s|%s" % kk: vv for kk, vv in v.items()}) for k, v in m.items()}) for m in masters]}
+        ctx.count(); ctx.klass("a script kerned in a non-default master only (%s in the default master)/%s" % (in_default, fn)); ctx.nontriv(("mok", i, ctx.scale))
+        try:
+            tt = getattr(ufo2ft, fn)(ds, useProductionNames=False)
+            buf = io.BytesIO(); tt.save(buf)
+        except Exception as e:
+            ctx.spec_failure(case, "%s raised %s: %s\n%s" % (fn, type(e).__name__, e, traceback.format_exc()[-1000:]))
+            continue
+        lay = Layout(TTFont(io.BytesIO(buf.getvalue())))
+        sc = lay.scripts()
+        bad = False
+        for t in ("latn", "cyrl"):
+            feats = sc.get(t, {}).get("dflt", [])
+            for f in ("kern", "mark", "mkmk"):
+                if f not in feats:
+                    ctx.spec_failure(dict(case, script=t), "declared script %s, whose glyphs are kerned in the last master, does not expose the generated %s feature (it has %r)" % (t, f, feats))
+                    bad = True
+        if bad:
+            continue
+        inst = instancer.instantiateVariableFont(TTFont(io.BytesIO(buf.getvalue())), {"wght": 900})
+        b2 = io.BytesIO(); inst.save(b2)
+        l2 = Layout(TTFont(io.BytesIO(b2.getvalue())))
+        for a, b, want in (("be-cy", "ve-cy", -50), ("be-cy", "ghe-cy", -50)):
+            got = l2.pair_adjust(l2.lookups_for("cyrl", {"kern"}), a, b)
+            if got[0] != want:
+                ctx.spec_failure(dict(case, pair=[a, b]), "at the last master's location the pair (%s, %s) is adjusted by %r under cyrl; that master's kerning says %d" % (a, b, got[:3], want))
+
+
 def cross_script_section(ctx):
     """kerning pairs BETWEEN scripts, linking three to five declared left-to-right scripts into chains (some scripts kerned only
     across scripts): every script of a pair's glyphs must reach, from its default language system, a generated kern lookup that
@@ -361,6 +421,7 @@ def cross_script_section(ctx):
 def explore(ctx):
     lookup_refs_section(ctx)
     rules_section(ctx)
+    master_only_kerning_section(ctx)
     cross_script_section(ctx)
     import ufo2ft
     from fontTools.ttLib import TTFont
